@@ -1143,6 +1143,39 @@ func c19Round(r *Run, rng *gen.Rng, st *c19Stats, corpus []string, roundSize, sw
 		}
 		next = append(next, &c)
 	}
+	// what an earlier run that was killed half-way left behind: a file at exactly the name this
+	// run uses for staging (same plan, hence same process id), longer than what will be written
+	for n, i := range order {
+		inv, rs := invs[i], res[i]
+		if n%6 != 2 || !inv.Valid || rs.Exit != 0 {
+			continue
+		}
+		pre := map[string]bool{}
+		for _, f := range inv.Spec.Files {
+			pre[path.Clean(f.Path)] = true
+		}
+		final := finalImage(rs.Journal)
+		transient := []string{}
+		seen := map[string]bool{}
+		for _, ev := range rs.Journal {
+			if ev.Op == simrt.OpDelta && ev.Res == "file" && !pre[ev.Path] && !seen[ev.Path] {
+				if d := final[ev.Path]; d != nil && d.Res == "absent" {
+					transient = append(transient, ev.Path)
+					seen[ev.Path] = true
+				}
+			}
+		}
+		if len(transient) == 0 {
+			continue
+		}
+		c := *inv
+		c.Family = "stale-staging-file"
+		c.Spec.Files = append([]simrt.FileSpec{}, inv.Spec.Files...)
+		for _, p := range transient {
+			c.Spec.Files = append(c.Spec.Files, simrt.FileSpec{Path: p, Data: bytes.Repeat([]byte("echo \"left by a run that was killed\"\n"), 200)})
+		}
+		next = append(next, &c)
+	}
 	// a SECOND invocation in the world the first one left behind (whatever it left: outputs,
 	// temporary files, anything under $HOME or $TMPDIR), after the input was edited to another
 	// program of exactly the same size: the command has no memory, the answer is the library's
